@@ -166,10 +166,32 @@ PROPS["C14"] = dict(
                 "bins against a direct grouping of the sorted data, mergelast on and off.",
     limit_quick=60)
 
+PROPS["C17"] = dict(
+    level="other", needs_ext=True,
+    technique="contract-based deductive verification of the rule's structure (C routine through the clang AST front end), the wrapper "
+              "and the QGauss integrators with an object invariant (own VC generator, z3); numerical content of the Newton "
+              "iteration as a labelled bounded stand-in against an independent Gauss-Legendre rule",
+    level_text="Proved for all inputs over the reals: PyCGauleg_cgauleg returns one node and one weight per requested point, writes "
+               "every cell, mirrors the nodes about the interval midpoint and mirrors the weights (loop invariant over both halves); "
+               "gauleg rejects npts <= 0; QGauss.setup keeps the object invariant 'the cached nodes/weights are the rule of the cached "
+               "point count', and integrate_func / integrate_data return f1 times the weighted sum over the affinely mapped nodes of "
+               "the rule of the requested (or previously set) point count - for data, of interplin's piecewise-linear values over "
+               "[min x, max x] - so results do not depend on point counts used earlier. Bounded and labelled: nodes strictly inside and "
+               "ascending, weights positive and summing to b-a, agreement with numpy's leggauss, exactness to degree 2n-1 (n <= 30), "
+               "whole call sequences on one object, the two-dimensional tensor sum.",
+    level_note="Trusted: esvc (incl. the C front end), z3, clang; floats are reals and floating-point division is total (no trap); the "
+               "Gauss-Legendre routine is a deterministic function of its arguments (gl_nodes / gl_weights name its result - axiom "
+               "'deterministic-routine'); termination and convergence of the Newton loop, and every numerical property of the nodes and "
+               "weights, are bounded only; integrands are applied element-wise; QGauss2 is bounded only (2-d broadcasting).",
+    explanation="Mixed: proved = structure of the rule, wrapper, QGauss formula and history independence (5 contracts); bounded = the "
+                "numerical statement about the rule for n in 1..60 (quick) / 1..200 (thorough) plus samples to 2000 on six kinds of "
+                "interval, polynomial exactness, call sequences, tensor-product sums.",
+    limit_quick=90)
+
 for _k in range(1, 21):
     PROPS.setdefault("C%02d" % _k, dict(level="other", needs_ext=True, explanation="see DESIGN.md section 8"))
 
 
-CLAIMED = {"C20", "C02", "C05", "C06", "C16", "C18", "C11", "C14"}
+CLAIMED = {"C20", "C02", "C05", "C06", "C16", "C18", "C11", "C14", "C17"}
 NOT_APPLICABLE = {("C%02d" % k): "check not built yet (implementation in progress; plan in DESIGN.md section 8)"
                   for k in range(1, 21) if ("C%02d" % k) not in CLAIMED}
